@@ -46,6 +46,7 @@ fn main() {
             // second stage of C10 / C11: typed chains (iterator callbacks, fold operands)
             "C10chain" => chaincheck::run("C10", &tier, seed),
             "C11chain" => chaincheck::run("C11", &tier, seed),
+            "C19chain" => chaincheck::run("C19", &tier, seed),
             _ => checks::run(&args[2], &tier, seed),
         },
         "show" => checks::show(&args[2], &tier, seed),
